@@ -42,34 +42,8 @@ func twinResolve(v ssa.Value, env twinEnv) ssa.Value {
 // (isNil) and constants are known. usedColl reports whether the nil-ness
 // mattered.
 func twinEval(v ssa.Value, env twinEnv, coll ssa.Value, isNil bool, depth int) (val, known, usedColl bool) {
-	if depth > 8 {
-		return false, false, false
-	}
-	v = twinResolve(v, env)
-	switch x := v.(type) {
-	case *ssa.Const:
-		if x.Value != nil {
-			s := x.Value.ExactString()
-			if s == "true" {
-				return true, true, false
-			}
-			if s == "false" {
-				return false, true, false
-			}
-		}
-	case *ssa.UnOp:
-		if x.Op == token.NOT {
-			a, k, u := twinEval(x.X, env, coll, isNil, depth+1)
-			return !a, k, u
-		}
-	case *ssa.BinOp:
-		if x.Op == token.EQL || x.Op == token.NEQ {
-			if (x.X == coll && isNilConst(x.Y)) || (x.Y == coll && isNilConst(x.X)) {
-				return isNil == (x.Op == token.EQL), true, true
-			}
-		}
-	}
-	return false, false, false
+	t, u := collTruth(v, coll, isNil, func(x ssa.Value) ssa.Value { return twinResolve(x, env) }, depth)
+	return t == triTrue, t != triUnknown, u
 }
 
 // twinBase strips negations from a resolved condition: the value a decision
@@ -117,7 +91,7 @@ func (w *twinWalker) enterEnv(from, to *ssa.BasicBlock, env twinEnv) twinEnv {
 
 func (w *twinWalker) forwards(ins ssa.Instruction) bool {
 	c, ok := ins.(*ssa.Call)
-	if !ok {
+	if !ok || tinyPredicate(c.Call.StaticCallee()) {
 		return false
 	}
 	for _, a := range c.Call.Args {
@@ -302,6 +276,13 @@ var ruleTwinRaise = &Rule{
 					if bo, ok := ins.(*ssa.BinOp); ok && (bo.Op == token.EQL || bo.Op == token.NEQ) && bo.X == ssa.Value(coll) && isNilConst(bo.Y) {
 						tests = true
 					}
+					if c, ok := ins.(*ssa.Call); ok && tinyPredicate(c.Call.StaticCallee()) {
+						for _, a := range c.Call.Args {
+							if a == ssa.Value(coll) {
+								tests = true
+							}
+						}
+					}
 				}
 			}
 			if !tests {
@@ -337,16 +318,23 @@ var ruleTwinRaise = &Rule{
 				out.undecided(fnName(fn)+": twin exploration", p.pos(fn.Pos()), fnName(fn), "path budget exhausted")
 				continue
 			}
+			// one obligation per function: the sites move when the function is
+			// reorganised (one raise split in two, a flag turned into returns)
+			key := fnName(fn) + ": raises also raised without a collector"
+			var bads []string
+			nreached := 0
 			for _, s := range sites {
-				key := fmt.Sprintf("%s: raise #%d", fnName(fn), ordOf[s])
-				switch {
-				case bad[s] != "":
-					out.viol(key, p.pos(s.Pos()), fnName(fn), "with a collector the element is rejected with this error, but without one the same decisions "+bad[s]+": Exists reports true for an element Query rejects")
-				case reached[s]:
-					out.ok(key, p.pos(s.Pos()), fnName(fn), "the run without a collector raises too, or claims nothing")
-				default:
-					out.ok(key, p.pos(s.Pos()), fnName(fn), "raised before any test of the collector")
+				if reached[s] {
+					nreached++
 				}
+				if bad[s] != "" {
+					bads = append(bads, fmt.Sprintf("the error raised at %s: without a collector the same decisions %s", p.pos(s.Pos()), bad[s]))
+				}
+			}
+			if len(bads) > 0 {
+				out.viol(key, p.pos(fn.Pos()), fnName(fn), "with a collector an element is rejected with an error, but without one the evaluation goes on or answers `found` ("+bads[0]+"): Exists reports true for an element Query rejects", bads...)
+			} else {
+				out.ok(key, p.pos(fn.Pos()), fnName(fn), fmt.Sprintf("%d raise sites, %d of them behind a test of the collector: the run without a collector raises too, or claims nothing", len(sites), nreached))
 			}
 		}
 		out.Counts["functions_testing_their_collector_and_raising"] = nfn
